@@ -77,6 +77,12 @@ def run(tier, replay=None):
                                              phys_paths=(k % 2 == 1),
                                              psdir_spelling=rng.choice(["", "slash", "dot", "dslash"]) if k > 0 else
                                              ("slash" if mode == "rolling" else "")))
+        # mrp killed between the moves and the rewriting of the record, then restarted
+        if q["name"] in ("po_plain", "po_arrays", "po_struct", "po_struct_outside", "po_outside", "po_maps", "po_links", "po_nulls"):
+            for mode in MODES[:2]:
+                specs.append(psrun.make_spec(q, sem[q["name"]], {"kind": "random", "seed": rng.randrange(1 << 30), "penv": 0.5},
+                                             name="%s#%stwice" % (q["name"], mode), vdr=mode, files=True, post=post[q["name"]],
+                                             rel_files=q.get("rel_files") or {}, post_twice=True))
     if replay:
         specs = [json.load(open(os.path.join(replay, "spec.json")))]
     res = psrun.run_specs(specs, nproc=16)
